@@ -287,3 +287,21 @@ def shrink(program):
             if f.get("origin") == "loss-data" and c.get("obs_data") is None:
                 continue
             yield c
+
+
+def evidence_extra(ok, tier):
+    F = _F(tier)
+    single = [r for r in ok if r["r"] < N_PROG[tier] * F]
+    per_prog = {}
+    for r in single:
+        per_prog.setdefault(r["r"] // F, 0)
+        per_prog[r["r"] // F] += 1
+    return {
+        "fault_enumeration": {
+            "description": "per sampled program: every iteration of the horizon x 6 origins x 2 kinds, one fault per run",
+            "programs": len(per_prog),
+            "faults_per_program": F,
+            "programs_fully_enumerated": sum(1 for v in per_prog.values() if v == F),
+            "fault_sequences_sampled": len(ok) - len(single),
+        }
+    }
